@@ -7,3 +7,4 @@ import EdxmlProps.C06
 import EdxmlProps.C14
 import EdxmlProps.C19
 import EdxmlProps.C18
+import EdxmlProps.C09
